@@ -31,6 +31,8 @@ type Rec struct {
 	Served  bool // executed against the node's data (not redirected / refused)
 	Reply   resp.Value
 	RawRepl []byte
+
+	closeAfter bool
 }
 
 func (r Rec) Cmd() string {
@@ -69,6 +71,7 @@ type Scripted struct {
 	Raw   []byte // raw bytes to send instead of the engine's reply
 	Times int    // how many times (<=0: forever)
 	Then  func() // called (under the lock) after it fired
+	Close bool   // close the connection after the reply was written (truncated frames)
 }
 
 // Node is one simulated Redis Cluster node.
@@ -470,6 +473,10 @@ func (n *Node) serve(cn *conn) {
 			}
 			n.c.mu.Unlock()
 			cn.write(raw)
+			if rec.closeAfter {
+				time.Sleep(50 * time.Millisecond)
+				return
+			}
 		}
 	}
 }
@@ -496,6 +503,7 @@ func (n *Node) process(cn *conn, rec *Rec) []byte {
 				}
 			}
 			rec.RawRepl = sc.Raw
+			rec.closeAfter = sc.Close
 			if sc.Then != nil {
 				sc.Then()
 			}
